@@ -404,15 +404,29 @@ def run_property(mod, prop, tier, seed, replay=None):
 def run_cases(ctx, driver, mod, cases):
     """impl -> model requests -> judge, batching all model requests into one driver run."""
     reqs, spans, observed = [], [], []
+    kept = []
     for c in cases:
-        o = mod.impl(c)
+        try:
+            o = mod.impl(c)
+        except Exception as e:  # the observation itself blew up on the real code: a concrete failing input
+            import traceback
+            ctx.violation("oracle", "observe:raises", f"observing the implementation raised {type(e).__name__}: {e}", c,
+                          traceback.format_exc()[-1500:])
+            ctx.evaluations += 1
+            continue
+        kept.append(c)
         r = mod.model_requests(c, o) if driver is not None else []
         spans.append((len(reqs), len(r)))
         reqs += r
         observed.append(o)
     outs = driver.run(reqs) if (driver is not None and reqs) else ([] if driver is not None else None)
-    for c, o, (s, k) in zip(cases, observed, spans):
-        mod.judge(ctx, c, o, outs[s:s + k] if outs is not None else None)
+    for c, o, (s, k) in zip(kept, observed, spans):
+        try:
+            mod.judge(ctx, c, o, outs[s:s + k] if outs is not None else None)
+        except Exception as e:
+            import traceback
+            ctx.violation("correspondence", "judge-crash", f"judging a case crashed: {e!r}", c, traceback.format_exc()[-1500:])
+            ctx.evaluations += 1
 
 
 def default_run(mod):
